@@ -104,12 +104,15 @@ def django_setup():
     from django.conf import settings
     if not settings.configured:
         settings.configure(DATABASES={"default": {"ENGINE": "django.db.backends.sqlite3", "NAME": ":memory:"}},
-                           INSTALLED_APPS=["djapp"], DEFAULT_AUTO_FIELD="django.db.models.AutoField", USE_TZ=False)
+                           INSTALLED_APPS=["djapp"], DEFAULT_AUTO_FIELD="django.db.models.AutoField", USE_TZ=True, TIME_ZONE="UTC")
     django.setup()
+    import warnings
+    warnings.filterwarnings("ignore", message=".*received a naive datetime.*")
     from django.db import connection
     from djapp import models
     with connection.schema_editor() as se:
-        for m in (models.Row, models.Org, models.PostInfo, models.AuthorInfo, models.Author, models.Post, models.Comment):
+        for m in (models.Row, models.Org, models.PostInfo, models.AuthorInfo, models.Author, models.Post, models.Comment,
+                  models.Other2, models.Other, models.Thing, models.Child):
             se.create_model(m)
     _django_ready = True
 
@@ -346,3 +349,107 @@ class RelSa:
         q = self.session.query(model) if base is None else base(model, "legacy", self)
         st = apply_odata_query(q, text)
         return sorted({o.id for o in st.all()}), str(st.statement.compile(self.engine))
+
+
+# ---------------------------------------------------------------------------------------------- translation-only schema
+class ThingSa:
+    """SQLAlchemy models/table `thing` with one column per spec type, a to-one relation `a` and a collection `cs`."""
+
+    def __init__(self):
+        import sqlalchemy as sa
+        from sqlalchemy.orm import Session, declarative_base, relationship
+        self.sa = sa
+        Base = declarative_base()
+
+        class Other2(Base):
+            __tablename__ = "other2"
+            id = sa.Column(sa.Integer, primary_key=True)
+            c = sa.Column(sa.Integer)
+
+        class Other(Base):
+            __tablename__ = "other"
+            id = sa.Column(sa.Integer, primary_key=True)
+            p = sa.Column(sa.Integer)
+            name = sa.Column(sa.String)
+            b_id = sa.Column(sa.Integer, sa.ForeignKey("other2.id"))
+            b = relationship(lambda: Other2)
+            cs = relationship(lambda: Child, back_populates="other", foreign_keys=lambda: [Child.other_id])
+
+        class Thing(Base):
+            __tablename__ = "thing"
+            id = sa.Column(sa.Integer, primary_key=True)
+            n = sa.Column(sa.Integer)
+            f = sa.Column(sa.Float)
+            s = sa.Column(sa.String)
+            b = sa.Column(sa.Boolean)
+            d = sa.Column(sa.DateTime)
+            dd = sa.Column(sa.Date)
+            tt = sa.Column(sa.Time)
+            du = sa.Column(sa.Interval)
+            gid = sa.Column(sa.String)
+            g = sa.Column(sa.String)
+            l = sa.Column(sa.String)
+            a_id = sa.Column(sa.Integer, sa.ForeignKey("other.id"))
+            a = relationship(lambda: Other)
+            cs = relationship(lambda: Child, back_populates="thing")
+
+        class Child(Base):
+            __tablename__ = "child"
+            id = sa.Column(sa.Integer, primary_key=True)
+            n = sa.Column(sa.Integer)
+            f = sa.Column(sa.Float)
+            s = sa.Column(sa.String)
+            b = sa.Column(sa.Boolean)
+            d = sa.Column(sa.DateTime)
+            dd = sa.Column(sa.Date)
+            tt = sa.Column(sa.Time)
+            du = sa.Column(sa.Interval)
+            gid = sa.Column(sa.String)
+            g = sa.Column(sa.String)
+            l = sa.Column(sa.String)
+            a_id = sa.Column(sa.Integer, sa.ForeignKey("other.id"))
+            a = relationship(lambda: Other, foreign_keys=lambda: [Child.a_id])
+            thing_id = sa.Column(sa.Integer, sa.ForeignKey("thing.id"))
+            thing = relationship(lambda: Thing, back_populates="cs")
+            other_id = sa.Column(sa.Integer, sa.ForeignKey("other.id"))
+            other = relationship(lambda: Other, back_populates="cs", foreign_keys=lambda: [Child.other_id])
+
+        self.Thing, self.Other, self.Child = Thing, Other, Child
+        self.engine = sa.create_engine("sqlite://")
+        Base.metadata.create_all(self.engine)
+        self.session = Session(self.engine)
+
+    def compile(self, st):
+        c = st.compile(self.engine, compile_kwargs={"render_postcompile": True})
+        params = c.params
+        return str(c), [params[k] for k in params]
+
+    def orm(self, text, legacy=False):
+        from odata_query.sqlalchemy import apply_odata_query
+        q = self.session.query(self.Thing) if legacy else self.sa.select(self.Thing)
+        st = apply_odata_query(q, text)
+        return self.compile(st.statement if legacy else st)
+
+    def core(self, text):
+        from odata_query.sqlalchemy import apply_odata_core
+        return self.compile(apply_odata_core(self.sa.select(self.Thing.__table__), text))
+
+
+def django_thing(text):
+    django_setup()
+    from djapp.models import Thing
+    from odata_query.django import apply_odata_query
+    qs = apply_odata_query(Thing.objects.all(), text)
+    sql, params = qs.query.sql_with_params()
+    return sql, list(params)
+
+
+def orm_visitors():
+    """(name, factory) of the ORM visitors for the non-mutation part of C16"""
+    django_setup()
+    from djapp.models import Thing
+    from odata_query.django import AstToDjangoQVisitor
+    from odata_query.sqlalchemy import AstToSqlAlchemyCoreVisitor, AstToSqlAlchemyOrmVisitor
+    t = ThingSa()
+    return [("django", lambda: AstToDjangoQVisitor(Thing)), ("sa-orm", lambda: AstToSqlAlchemyOrmVisitor(t.Thing)),
+            ("sa-core", lambda: AstToSqlAlchemyCoreVisitor(t.Thing.__table__))]
